@@ -252,6 +252,35 @@ pub fn run(args: &Args) {
                 t.emit(e);
             }
         }
+        // the same package with a signature header that holds the genuine signature(s) but no header digest: the payload
+        // digest inside the signed header is then all that protects the payload
+        if !big {
+            let mut ents: Vec<(u32, u32, Value)> = vec![];
+            if let Some(v) = lay.sig.strings(&base, 278) { ents.push((278, T_STRARR, json!(v))); }
+            for tag in [267u32, 268] {
+                if let Some(bin) = lay.sig.bin(&base, tag) { ents.push((tag, T_BIN, json!(bin))); }
+            }
+            let sig = encode_wellformed(62, &ents);
+            let stripped = rawhdr::assemble(&base[..96], &sig, &base[lay.hdr_at..lay.payload_at], &base[lay.payload_at..], 0);
+            let e0 = verify_real(&stripped, &orig, key);
+            if e0["verify"] == "ok" {
+                if let Some(l2) = rawhdr::layout(&stripped) {
+                    let plen = stripped.len() - l2.payload_at;
+                    for k in 0..40usize.min(plen * 8) {
+                        let bit = if plen * 8 <= 40 { k } else { rng.below(plen as u64 * 8) as usize };
+                        let mut m = stripped.clone();
+                        m[l2.payload_at + bit / 8] ^= 1 << (bit % 8);
+                        let mut e = verify_real(&m, &orig, key);
+                        e["event"] = json!("Tampered"); e["key"] = json!(key);
+                        e["what"] = json!(format!("signature header without SHA256 tag; flip payload bit {bit}"));
+                        e["ep_start"] = json!(true);
+                        t.emit(e);
+                    }
+                }
+            } else {
+                t.emit(json!({"event":"CarrierSkipped","why":"does not verify without the SHA256 tag","key":key}));
+            }
+        }
         // digest-consistent forgeries: change content, then repair every recorded digest
         let nforge = args.num("forgeries", 40);
         for k in 0..nforge {
